@@ -597,11 +597,19 @@ pub fn parse_async(data: Rc<Vec<u8>>, plan: &ChunkPlan, fault: BodyFault) -> Res
     let mut ex = Exec::new(cfg);
     let out2 = out.clone();
     let pcs2 = pcs.clone();
+    // Heap metering of the async parse: the body, the delivered-bytes record and the prefix
+    // checker are allocated before this point; what is live above `live_before` during the
+    // run is the parser's window, at most two wire chunks (the one being copied and the next
+    // one replacing it) and the executor's bookkeeping.
+    let max_chunk = sizes.iter().copied().max().unwrap_or(0) as isize;
+    simkit::alloc::reset_peak();
+    let live_before = simkit::alloc::live();
     ex.spawn("parse_async", async move {
         let r = SymbolFile::parse_async(resp, |bytes| pcs2.borrow_mut().feed(bytes)).await;
         *out2.borrow_mut() = Some(r);
     });
     let stop = ex.run(|_, _| Ok(()))?;
+    let peak_window = (simkit::alloc::peak() - live_before - 2 * max_chunk).max(0);
     match stop {
         Stop::AllDone => {}
         Stop::Deadlock(_) => return Err(Violation::new("c09.async_deadlock", "parse_async never completed although the whole body was delivered (lost wake-up)")),
@@ -628,7 +636,7 @@ pub fn parse_async(data: Rc<Vec<u8>>, plan: &ChunkPlan, fault: BodyFault) -> Res
         fault_fired: fault != BodyFault::None,
         budget_exceeded: false,
         interior_ends: interior,
-        peak_window: 0,
+        peak_window,
         steps: ex.steps,
     })
 }
@@ -891,10 +899,8 @@ fn c09_general() -> Outcome {
         // 3. bounded window
         simkit::ensure!(s.max_offered <= MAX_BUFFER, "c09.buffer_cap", "a buffer larger than 160 KiB was offered to the reader");
         let delivered: &[u8] = s.delivered.as_deref().unwrap_or(&data);
-        if !use_async {
-            let bound = window_bound(delivered.len(), false);
-            simkit::ensure!(s.peak_window <= bound, "c09.memory_window", "peak live heap during the parse exceeded 1 MiB + 64 x input length");
-        }
+        let bound = window_bound(delivered.len(), false);
+        simkit::ensure!(s.peak_window <= bound, "c09.memory_window", "peak live heap during the parse exceeded 1 MiB + 64 x input length");
         // 4. outcome class
         match &s.result {
             Err(SymbolError::LoadError(_)) => {
@@ -1029,15 +1035,23 @@ fn c09_giant_line() -> Outcome {
         data.extend_from_slice(b"PUBLIC a000 0 after\n");
     }
     let data = Rc::new(data);
-    let plan = match ch("c09.giant.plan", 3) {
+    // one run in three takes the HTTP path (wire chunks of bounded size, so that the two
+    // chunks the metering allows for stay far below the bound)
+    let use_async = chance("c09.giant.async", 1, 3);
+    let plan = match if use_async { 1 + ch("c09.giant.plan", 2) } else { ch("c09.giant.plan", 3) } {
         0 => ChunkPlan::full(),
         1 => ChunkPlan { segments: vec![(usize::MAX, PlanKind::Geometric)] },
         _ => ChunkPlan { segments: vec![(usize::MAX, PlanKind::Threshold(40 * 1024))] },
     };
-    let info = json!({"scenario": "giant line", "len": data.len(), "ends_inside_line": ends_inside, "plan": plan.describe()});
+    let info = json!({"scenario": "giant line", "len": data.len(), "ends_inside_line": ends_inside, "plan": plan.describe(), "path": if use_async { "async" } else { "sync" }});
     let mut keyparts = Vec::new();
     let result = (|| -> simkit::Check {
-        let s = parse_sync(data.clone(), plan.clone(), Fault::None);
+        let s = if use_async {
+            probe("e1.giant_line_async");
+            parse_async(data.clone(), &plan, BodyFault::None)?
+        } else {
+            parse_sync(data.clone(), plan.clone(), Fault::None)
+        };
         keyparts.extend(s.sizes.iter().take(64).flat_map(|x| x.to_le_bytes()));
         simkit::ensure!(!s.budget_exceeded, "c09.read_budget", "read was called more than 2*len+64 times, or more than 16 times after the reader had answered EOF (the parser does not make progress)");
         simkit::ensure!(s.max_offered <= MAX_BUFFER, "c09.buffer_cap", "a buffer larger than 160 KiB was offered to the reader");
